@@ -778,7 +778,8 @@ def run(ctx):
                 }
                 specials = tuple(sorted({("empty" if strip_ows(v) == "" else "ae" if n.lower() == "accept-encoding" else "at" if n.startswith("@") else "") for n, v in sp["headers"]} - {""}))
                 nontrivial = bool(feats["m"] or feats["p"] or feats["h"] or sp["body_kind"] not in ("none",))
-                sig = (form, feats["m"], feats["p"], feats["h"], sp["body_kind"], specials, sp["host_header"] is None, raw_out, tuple(sorted(set(outcome)))[:3])
+                union = tuple(sorted(set(feats["m"]) | set(feats["p"]) | set(feats["h"])))
+                sig = (form, bool(feats["m"]), union, sp["body_kind"], specials)
                 ctx.case(sig, nontrivial=nontrivial, sample={"form": form, "cmd": short(cmds.get(kind) or "", 400), "method": sp["method"], "path": sp["path"], "body_kind": sp["body_kind"]})
     finally:
         jail.close()
